@@ -553,7 +553,7 @@ impl Prop for C17 {
         let ex = exhaustive_cases().len() as u64;
         let (np, nn) = match tier {
             Tier::Quick => (20000, 15000),
-            Tier::Thorough => (160_000, 140_000),
+            Tier::Thorough => (800_000, 700_000),
         };
         vec![
             Space { name: "routes", size: ex, exhaustive: true, chunk: 1500, case_timeout_s: 20.0, what: "every single-reference program over mod ma { fn fa  mod mb { fn fb } } mod mc {}: 2 targets x 4 positions x 51 reference forms x 8 pub/private assignments x 7 wrappers, well-formed ones only" },
